@@ -344,7 +344,7 @@ class Union:
         less = all(
             typeorder(t, other) in (Order.LESS, Order.SAME) for t in self.types
         )
-        if more and less:
+        if more and less and others != (other,):
             return Order.SAME
         elif more:
             return Order.MORE
@@ -406,7 +406,7 @@ class Intersection:
         more = all(
             typeorder(t, other) in (Order.MORE, Order.SAME) for t in self.types
         )
-        if more and less:
+        if more and less and others != (other,):
             return Order.SAME
         elif less:
             return Order.LESS
